@@ -3,8 +3,8 @@
 EXTENDS Enc, Ref, GenUtil, TLC, Json
 CONSTANTS Tier, Seed, OutFile
 Thorough == Tier = "thorough"
-Dates == << << 0, 0, 1, 138, 207, 146, 32, 0 >>, << 0, 0, 1, 138, 207, 146, 32, 1 >>, << 0, 0, 0, 0, 0, 0, 0, 1 >>, << 127, 255, 255, 255, 255, 255, 255, 255 >>,
-            Zeros(8), << 0, 0, 0, 0, 255, 255, 255, 255 >>, << 0, 0, 0, 1, 0, 0, 0, 0 >>, << 127, 255, 255, 255, 255, 255, 255, 254 >> >>   \* all below 2^63 (the property's domain)
+Dates == << << 0, 0, 1, 138, 207, 146, 32, 0 >>, << 0, 0, 1, 138, 207, 146, 32, 1 >>, Zeros(8), << 127, 255, 255, 255, 255, 255, 255, 255 >>,
+            << 0, 0, 0, 0, 0, 0, 0, 1 >>, << 0, 0, 0, 0, 255, 255, 255, 255 >>, << 0, 0, 0, 1, 0, 0, 0, 0 >>, << 127, 255, 255, 255, 255, 255, 255, 254 >> >>   \* all below 2^63 (the property's domain)
 \* all sequences of length n over indices 1..k (k^n orders incl. duplicates)
 RECURSIVE Exp(_, _)
 Exp(b, x) == IF x = 0 THEN 1 ELSE b * Exp(b, x - 1)
